@@ -177,3 +177,24 @@ Fixpoint rfc_view_forest_aux (sch : schema) (mode : wdmode) (keepempty : bool) (
   end.
 Definition rfc_view_forest (sch : schema) (mode : wdmode) (keepempty : bool) (f : forest) : forest :=
   rfc_view_forest_aux sch mode keepempty f f.
+
+(* ------------------------------------------------------------------------------------------- *)
+(* consistent flags: the hypothesis under which the code and RFC 6243 agree (validation establishes it:            *)
+(* C07_dflt_flag_sound + the normal form)                                                                         *)
+(*   - a term has no children; it is default-flagged only if it holds a default value; lyd_is_default agrees with *)
+(*     the RFC notion (leaf-lists: no instance equal to SOME default value unless the whole leaf-list is default) *)
+(*   - a non-presence container is default-flagged iff all its children are                                      *)
+(*   - nothing else is default-flagged                                                                           *)
+(* ------------------------------------------------------------------------------------------- *)
+Definition isnil {A} (l : list A) : bool := match l with [] => true | _ => false end.
+
+Fixpoint wd_wf (sch : schema) (sibs : forest) (n : dnode) {struct n} : bool :=
+  match n with
+  | DN s v d m ch =>
+      (if is_termnode sch n
+       then isnil ch && Bool.eqb (is_default_val sch n) (rfc_holds_default sch sibs n) && (negb d || is_default_val sch n)
+       else if is_np_cont sch s then Bool.eqb d (forallb d_dflt ch)
+       else negb d) &&
+      (fix all (l : list dnode) : bool := match l with [] => true | x :: l' => wd_wf sch ch x && all l' end) ch
+  end.
+Definition wd_wf_forest (sch : schema) (f : forest) : bool := forallb (wd_wf sch f) f.
